@@ -27,7 +27,7 @@ func NewLogHist(b int, m float64, max float64) *LogHist {
 }
 
 func (h *LogHist) bin(x float64) int {
-	return int(h.mOverLogb * math.Log(x))
+	return int(math.Floor(h.mOverLogb * math.Log(x)))
 }
 
 func (h *LogHist) Add(x float64) {
